@@ -76,6 +76,7 @@ func (s *Service) PostLock() {
 func (s *Service) Lock(key [48]byte) {
 	lock, exists := s.locks.Load(key)
 	if !exists {
+		verifhook.BeforeLock(&s.newLockMutex, "newlock", key[:])
 		s.newLockMutex.Lock()
 		lock, exists = s.locks.Load(key)
 		if !exists {
